@@ -1,4 +1,5 @@
 import Martian.Invocation
+import Martian.InvocationStr
 import Driver.Util
 
 /-!
@@ -213,6 +214,22 @@ def handle (op : String) (args : List String) : Option String :=
     let f ← parseFlt f
     pure ("text=" ++ (if f.textAsInt then "int " ++ showInt f.intVal else "float")
       ++ " json=" ++ (if f.jsonAsInt then "int " ++ showInt f.intVal else "float"))
+  | "jsonenc", [h, s] => do
+    let h ← if h == "0" then some false else if h == "1" then some true else none
+    let s ← bytesOfHex s
+    pure (hexOfBytes (Martian.InvocationStr.jsonEncodeString h s))
+  | "pyenc", [s] => do
+    let s ← bytesOfHex s
+    pure (hexOfBytes (Martian.InvocationStr.pyEncodeString s))
+  | "mroquote", [s] => do
+    let s ← bytesOfHex s
+    pure (hexOfBytes (Martian.Format.quoteString s))
+  | "jsondec", [t] => do
+    let t ← bytesOfHex t
+    pure (optHex (Martian.InvocationStr.jsonDecodeString t))
+  | "unq", [t] => do
+    let t ← bytesOfHex t
+    pure (optHex (Martian.Lexer.unquoteBytes t))
   | _, _ => none
 
 end Driver.C16
